@@ -57,6 +57,8 @@ def sort_case(draw, tier):
         "buffersize": draw(gen.buffersizes(n)), "cache": draw(st.booleans()),
         "tempdir": draw(st.booleans()), "passes": draw(st.integers(1, 3)),
         "via_config": draw(st.booleans()),
+        # optionally the very first pass hits a transient source fault at this data row; "every pass" includes the retry
+        "fail_first": draw(st.one_of(st.none(), st.none(), st.integers(0, max(0, n - 1)))) if n else None,
     }
 
 
@@ -88,7 +90,21 @@ def check_sort(case, ctx):
         elif bs is not None:
             kw["buffersize"] = bs
         try:
-            view = etl.sort(src, key, **kw)
+            ff = case.get("fail_first")
+            if ff is not None:
+                from pv.probes import Counting, Boom
+                csrc = Counting(src)
+                csrc.fail_at = ff
+                view = etl.sort(csrc, key, **kw)
+                try:
+                    list(view)
+                    return Fail("sort/fault-swallowed", "source raised at data row %d but the pass completed" % ff)
+                except Boom:
+                    pass
+                csrc.fail_at = None
+                ctx.label("retry-after-failed-pass")
+            else:
+                view = etl.sort(src, key, **kw)
             outs = [[tuple(r) for r in view] for _ in range(case["passes"])]
         except Exception as e:
             return exc_fail("sort", e)
